@@ -109,7 +109,13 @@ func ExponentialBackoff(backoff time.Duration, factor, jitter float64) Backoff {
 
 		// do exponential backoff with jitter
 		temp := float64(backoff) * math.Pow(factor, float64(attempt))
-		return time.Duration(temp*(1-jitter)) + time.Duration(rand.Int64N(int64(2*jitter*temp)))
+		interval := time.Duration(temp * (1 - jitter))
+		// rand.Int64N panics unless its argument is positive: there is no
+		// jitter to add when jitter is 0 or when the range overflows int64
+		if n := int64(2 * jitter * temp); n > 0 {
+			interval += time.Duration(rand.Int64N(n))
+		}
+		return interval
 	}
 }
 
